@@ -98,6 +98,27 @@ func init() {
 	})
 }
 
+// c01TLS: authentication inside a TLS-upgraded connection whose client presents an (unverified) certificate: the
+// session is the plaintext session — in particular a rejected password stays rejected.
+func c01TLS(emit explore.Emit) {
+	for _, c := range c11ClientCertCases() {
+		if c.Auth == "" {
+			continue
+		}
+		c := c
+		emit(explore.Case{Family: "tls-client-certificate", Size: 5, Desc: func() any { return c.String() }, Run: func() explore.Result {
+			r := c11Run(c)
+			r.Outcome = "tls"
+			for i := range r.Violations {
+				if c.Auth == "bad" && r.Violations[i].Clause == "tls-session-differs" {
+					r.Violations[i].Clause = "authenticated-phase-reached"
+				}
+			}
+			return r
+		}})
+	}
+}
+
 func c01Depth(tier string) int {
 	if tier == "thorough" {
 		return 4
@@ -349,6 +370,7 @@ func c01Run(startup int, l pwLetter, cont []contLetter, pipelined bool) explore.
 }
 
 func c01Enumerate(tier string, emit explore.Emit) {
+	c01TLS(emit)
 	letters := c01Letters()
 	contA := c01Cont()
 	depth := c01Depth(tier)
